@@ -19,6 +19,9 @@
 #include "CppUTest/MemoryLeakWarningPlugin.h"
 #include "CppUTest/PlatformSpecificFunctions.h"
 #include "CppUTest/TestHarness_c.h"
+#include "CppUTest/TestOutput.h"
+#include "CppUTest/TestResult.h"
+#include "CppUTestExt/MemoryReporterPlugin.h"
 #if defined(__SANITIZE_ADDRESS__)
 #include <sanitizer/asan_interface.h>
 #define LD_POISON(p, n) __asan_poison_memory_region((p), (n))
@@ -251,8 +254,13 @@ struct Harness {
     SideAllocator side;
     bool c06;
     bool threadsafe;                 // the g* operations use the thread-safe overloads
+    // the two real plugins that drive the detector / the current allocators around a test
+    MemoryLeakWarningPlugin* lwp;
+    MemoryReporterPlugin* mrp;
+    UtestShell* shell; StringBufferTestOutput* out; TestResult* result;
+    bool mrp_active;                 // between its pre and post action (a second pre would make a report allocator its own real allocator)
 
-    Harness(bool c06_) : det(0), sink(0), period(mem_leak_period_disabled), accountant(0), c06(c06_), threadsafe(false) {}
+    Harness(bool c06_) : det(0), sink(0), period(mem_leak_period_disabled), accountant(0), c06(c06_), threadsafe(false), lwp(0), mrp(0), shell(0), out(0), result(0), mrp_active(false) {}
 
     void init() {
         MemoryLeakWarningPlugin::turnOffNewDeleteOverloads();
@@ -265,6 +273,9 @@ struct Harness {
         det = new MemoryLeakDetector(&reporter);
         sink = new MemoryLeakDetector(&sinkReporter);
         MemoryLeakWarningPlugin::setGlobalDetector(sink, &sinkReporter);
+        SimpleString::setStringAllocator(&side);       // texts built by plugins / formatters stay out of the arena accounting
+        shell = new UtestShell("group", "name", "file.cpp", 1);
+        out = new StringBufferTestOutput(); result = new TestResult(*out);
         accountant = new MemoryAccountant();
         accountant->setAllocator(&side);
         add(defaultNewAllocator(), false, -1, false);                                                        // 0
@@ -546,6 +557,47 @@ struct Harness {
                 if (!resolve(w[1], w[2], addr)) { vh::emit("> skip"); continue; }
                 vh::emit("> invalidate %lu", addr);
                 det->invalidateMemory(ptr_of(addr));
+            }
+            else if (o == "plugin" && w.size() >= 2) {
+                // the real MemoryLeakWarningPlugin on the detector under test: create | pre | post | ignore | expect <n>
+                if (w[1] == "create" && !lwp) {
+                    vh::emit("> plugin create");
+                    lwp = new MemoryLeakWarningPlugin("MemoryLeakPlugin", det);          // the constructor enables the detector
+                    period = mem_leak_period_enabled;
+                }
+                else if (w[1] == "pre" && lwp) {
+                    vh::emit("> plugin pre"); lwp->preTestAction(*shell, *result);
+                    period = mem_leak_period_checking; reporter.seen = 0;
+                }
+                else if (w[1] == "post" && lwp) {
+                    vh::emit("> plugin post"); lwp->postTestAction(*shell, *result);
+                    period = mem_leak_period_enabled;
+                    for (int k = 0; k < NSLOTS; k++)
+                        if (g_tracked[k] && g_recperiod[k] == mem_leak_period_checking) g_recperiod[k] = mem_leak_period_enabled;
+                }
+                else if (w[1] == "ignore" && lwp) { vh::emit("> plugin ignore"); lwp->ignoreAllLeaksInTest(); }
+                else if (w[1] == "expect" && lwp && w.size() >= 3 && w[2].size() <= 6) {
+                    vh::emit("> plugin expect %lu", (unsigned long) vh::to_u64(w[2])); lwp->expectLeaksInTest((size_t) vh::to_u64(w[2]));
+                }
+                else { vh::emit("> skip"); continue; }
+            }
+            else if (o == "mrp" && w.size() >= 2 && c06) {
+                // the real MemoryReporterPlugin (-pmemoryreport=normal): create | pre | post; its three report allocators are
+                // registry entries 15 (malloc), 16 (new), 17 (new[]) from `create` on
+                if (w[1] == "create" && !mrp) {
+                    vh::emit("> mrp create");
+                    mrp = new MemoryReporterPlugin();
+                    const char* av[] = { "prog", "-pmemoryreport=normal" };
+                    bool ok = mrp->parseArguments(2, av, 1);
+                    add(mrp->getMallocAllocator(), true, -1, false);
+                    add(mrp->getNewAllocator(), true, -1, false);
+                    add(mrp->getNewArrayAllocator(), true, -1, false);
+                    vh::emit("parsed %d", ok ? 1 : 0);
+                }
+                else if (w[1] == "pre" && mrp && !mrp_active) { vh::emit("> mrp pre"); mrp->preTestAction(*shell, *result); mrp_active = true; }
+                else if (w[1] == "post" && mrp && mrp_active) { vh::emit("> mrp post"); mrp->postTestAction(*shell, *result); mrp_active = false; }
+                else { vh::emit("> skip"); continue; }
+                vh::emit("current %d %d %d", index_of(getCurrentNewAllocator()), index_of(getCurrentNewArrayAllocator()), index_of(getCurrentMallocAllocator()));
             }
             else if (o == "overloads" && w.size() >= 2 && (w[1] == "threadsafe" || w[1] == "plain")) {
                 // which set of overloads the g* operations switch on (the thread-safe ones take the detector's mutex)
